@@ -15,16 +15,16 @@ import (
 	"go/ast"
 	goparser "go/parser"
 	"go/token"
-	"strconv"
-	"text/template"
 	"os"
 	"os/exec"
 	"path/filepath"
 	"regexp"
 	"sort"
+	"strconv"
 	"strings"
 	"sync"
 	"syscall"
+	"text/template"
 	"time"
 
 	"github.com/php-any/origami/cmd/compile"
@@ -44,16 +44,16 @@ import (
 // compile command is meant to be used (`zy compile . --entry=…`): library
 // files are namespaced class files, the entry uses them.
 type Prog struct {
-	Name string            `json:"name"`           // file stem, unique in the batch
-	Kind string            `json:"kind"`           // feat | safe | mix | cls | corpus | known | shrink
-	Tags []string          `json:"tags,omitempty"` // feature tags of the snippets it is made of
-	Src  string            `json:"src"`            // entry source (with <?php)
-	Libs map[string]string `json:"libs,omitempty"` // "<Namespace>/<Class>.php" -> source
-	Parts []string         `json:"-"`              // the snippets (for shrinking), parallel to Tags
-	PartLibs []map[string]string `json:"-"`
-	PartIDs  []string            `json:"-"` // scalar programs: the marker id of every part (scalar.go)
-	FailParts []int              `json:"-"` // scalar programs: the parts whose output segments differed
-	Origin string          `json:"origin,omitempty"`
+	Name      string              `json:"name"`           // file stem, unique in the batch
+	Kind      string              `json:"kind"`           // feat | safe | mix | cls | corpus | known | shrink
+	Tags      []string            `json:"tags,omitempty"` // feature tags of the snippets it is made of
+	Src       string              `json:"src"`            // entry source (with <?php)
+	Libs      map[string]string   `json:"libs,omitempty"` // "<Namespace>/<Class>.php" -> source
+	Parts     []string            `json:"-"`              // the snippets (for shrinking), parallel to Tags
+	PartLibs  []map[string]string `json:"-"`
+	PartIDs   []string            `json:"-"` // scalar programs: the marker id of every part (scalar.go)
+	FailParts []int               `json:"-"` // scalar programs: the parts whose output segments differed
+	Origin    string              `json:"origin,omitempty"`
 }
 
 // Obs is what one execution shows.
